@@ -10,7 +10,6 @@ import (
 	"fmt"
 	"math/rand"
 	"os"
-	"runtime/coverage"
 	"sort"
 	"strconv"
 	"strings"
@@ -204,17 +203,4 @@ func CorpusOps(dir string) []string {
 		}
 	}
 	return ops
-}
-
-// FlushCoverage writes the statement-coverage counters of a harness binary built with
-// `-cover` (bin/cover) to $GOCOVERDIR.  Bubble harnesses end with syscall.Exit, which skips
-// the testing package's own exit hook, so the trace writer's Close does it.  A binary built
-// without -cover (every registered check) returns an error here, which is ignored.
-func FlushCoverage() {
-	dir := os.Getenv("GOCOVERDIR")
-	if dir == "" {
-		return
-	}
-	_ = coverage.WriteMetaDir(dir)
-	_ = coverage.WriteCountersDir(dir)
 }
